@@ -139,6 +139,27 @@ def run(ctx):
     compare(ctx, bm, m, "init")
     nsteps = 1 + ch.draw(40, "nsteps") + (100 + ch.draw(300, "nsteps-large") if large else 0)
     for _ in range(nsteps):
+        if ch.coin(1, 12, "snapshot"):
+            # a client takes a snapshot of the map (copy / deep copy / pickle): the snapshot is an equal, independent map
+            # and the original is what it was
+            import copy
+            import pickle
+            how = ch.draw(4, "snapshot-how")
+            hname = ["copy.copy", "copy.deepcopy", "pickle", "BiMap(items)"][how]
+            try:
+                snap = [copy.copy, copy.deepcopy, lambda x: pickle.loads(pickle.dumps(x)), lambda x: BiMap(dict(x.items()))][how](bm)
+            except Exception as e:  # noqa: BLE001
+                ctx.violate("exception", f"snapshot:{hname}:{type(e).__name__}", {"model": _r(m.fwd)}, stop=True)
+            ctx.ev(0, "snapshot", hname)
+            ctx.probe("snapshot_taken")
+            ctx.steps += 1
+            sm = Model()
+            sm.fwd, sm.bck = dict(m.fwd), dict(m.bck)
+            compare(ctx, snap, sm, "snapshot:" + hname + ":the-snapshot", alpha if large else None)
+            compare(ctx, bm, m, "snapshot:" + hname + ":the-original", alpha if large else None)
+            if how != 0 and ch.coin(1, 2, "continue-on-the-snapshot"):
+                bm = snap  # the history goes on with the snapshot (the original is dropped)
+            continue
         op = ch.weighted([8, 8, 6, 2, 2, 2] if large and len(m.fwd) < 70 else [4, 4, 3, 2, 2, 2], "op")
         a, b = ch.pick(alpha, "a"), ch.pick(alpha, "b")
         if big:
